@@ -15,13 +15,13 @@ MP = "pg (engines M and P: macro generators as a library + generated client prog
 CLAIMED = {
     # id: (engine, category, technique, level text, level note, design ref)
     "C01": (H, "exploration", "model-based stateful property testing (proptest op sequences vs reference model, shrinking)",
-            "Generated histories (create / create_within_capacity / destroy by all key kinds / ecs_iter_destroy! / clone / drop over 6 archetypes and all initial capacities) are run against the real world and a reference map; after every step every handle ever issued is probed through every lookup path and must be accepted iff alive and designate its own entity. Exploration is the right level: the property quantifies over unbounded histories, the oracle is exact, and the representation-invariant oracle flags latent slot-map corruption early.",
+            "Generated histories (create / create_within_capacity / destroy by all key kinds / ecs_iter_destroy! / clone / drop over 6 archetypes and all initial capacities) are run against the real world and a reference map; after every step every handle ever issued is probed through every lookup path and must be accepted iff alive and designate its own entity; a dynamically typed key handed to another archetype's accessors must be rejected; extra shards run on an archetype prefilled with 98 304 entities (16-bit index boundary) and on the `events` build. Exploration is the right level: the property quantifies over unbounded histories, the oracle is exact, and the representation-invariant oracle flags latent slot-map corruption early.",
             "trusts the reference model in harness/src (no gecs code), proptest, rustc; the dump hook only feeds the additional representation-invariant oracle", "DESIGN.md 3/C01"),
     "C02": (H, "exploration", "model-based stateful property testing with unique per-(entity,column,write) stamps",
-            "Every component value is a stamp unique per (entity, column, write); histories interleave structural ops with writes through every mutable path and read every live entity back through every read path after every step, so a value under the wrong entity or column is visible. Shapes: 1,2,3,4,16 columns (17/32 under C19), ZST, 1..64-byte, 64-aligned, heap-owning.",
+            "Every component value is a stamp unique per (entity, column, write); histories interleave structural ops with writes through every mutable path and read every live entity back through every read path after every step, so a value under the wrong entity or column is visible. Shapes: 1,2,3,4,5,16 columns (17/32 under C19), ZST, 1..64-byte, 64-aligned (with and without drop glue), heap-owning; extra shards on an archetype of 98 304 entities and on the `events` build.",
             "trusts the reference model and the Stamp components; u8 columns can only hold 256 distinct stamps (other columns of the same entity disambiguate)", "DESIGN.md 3/C02"),
     "C04": (H, "exploration", "model-based stateful property testing with a drop/clone registry",
-            "Drop-instrumented components (registry of live ids, counted zero-sized type) make a double drop, a drop while alive and a leak observable after every step; clone must clone each live instance exactly once; at the end all worlds are dropped and the registry must be empty.",
+            "Drop-instrumented components (registry of live ids, counted zero-sized type) make a double drop, a drop while alive and a leak observable after every step; clone must clone each live instance exactly once (as `w.clone()` and as `dst.clone_from(&w)`, whose former contents must be dropped exactly once); at the end (also after a failing step) all worlds are dropped and the registry must be empty.",
             "trusts the registry in harness/src/comps.rs; heap-level backstop (ASan/LSan) only in the thorough tier", "DESIGN.md 3/C04"),
     "C06": (H, "exploration", "model-based stateful property testing, multiset oracle over every iteration path",
             "Every iteration path (ecs_iter!, ecs_iter_borrow! incl. cross-archetype and OneOf queries, Archetype::iter/iter_mut, entities(), slice accessors) must yield exactly the model's live multiset with each entity's own stamps, count == len(), and Break must end the whole query after exactly k+1 calls.",
@@ -31,13 +31,13 @@ CLAIMED = {
             "decision of visit i is 2 bits of a generated 16-bit word (period 8)", "DESIGN.md 3/C07"),
     "C08": (H, "exploration", "model-based stateful property testing incl. preset generations at the 2^32 boundary",
             "Every handle returned by any create path is checked against all handles its world lineage issued before; histories may start from generations preset (hook) next to u32::MAX so the overflow boundary is crossed within a few ops, where the default configuration must panic rather than reissue.",
-            "2^32-distant states are reached through the preset hook (reachable combinations only); real 2^32-cycle runs only in the thorough tier", "DESIGN.md 3/C08"),
+            "2^32-distant states are reached through the preset hook (reachable combinations only); one real 2^32-cycle run on the optimised build in every tier", "DESIGN.md 3/C08"),
     "C09": (H, "exploration", "model-based stateful property testing of direct handles (mint anywhere, use anywhere)",
-            "Direct handles are minted at arbitrary points through to_direct (all key kinds, both levels) and through EntityDirect parameters of all five query macros, and used later through every lookup/destroy path: rejected after any removal, accepted while nothing changed, and never designating another entity.",
+            "Direct handles are minted at arbitrary points through to_direct (all key kinds, both levels) and through EntityDirect parameters of all five query macros, and used later through every lookup/destroy path: rejected after any removal, accepted while nothing changed, never designating another entity, and rejected by the archetype-level accessors of every other archetype.",
             "after creations only, both outcomes are allowed (doc comment vs test_direct_basic), but an accepted handle must designate its entity", "DESIGN.md 3/C09"),
     "C12": (H, "exploration", "model-based stateful property testing of len/capacity laws",
-            "After every step len()/is_empty()/capacity() are compared with the model; create_within_capacity must succeed exactly when len < capacity and hand back its argument otherwise; refills must perform exactly capacity - len creations without changing capacity; the free list must have exactly capacity - len nodes.",
-            "the doubling formula is not asserted; the 2^24 boundary scenario runs in the thorough tier", "DESIGN.md 3/C12"),
+            "After every step len()/is_empty()/capacity() are compared with the model; create_within_capacity must succeed exactly when len < capacity and hand back its argument otherwise; refills must perform exactly capacity - len creations without changing capacity; the free list must have exactly capacity - len nodes; world-level with_capacity must give every archetype its own capacity (one world declares its ids in descending order); the 2^24 limit is reached by growth and by with_capacity in dedicated scenarios; builds: chk, rel, chk with `events`.",
+            "the doubling formula is not asserted; the thorough tier runs the 2^24 scenarios from seven starting capacities instead of two", "DESIGN.md 3/C12"),
     "C13": (H, "exploration", "model-based stateful property testing with cloned worlds and diverging histories",
             "Clones are taken at arbitrary points; the full probe suite must give identical answers on the clone immediately, and afterwards each world is checked against its own model after every step, so bleed-through shows up in the untouched world; both can be refilled to capacity.",
             "handles belong to a world lineage (soundness decision 10)", "DESIGN.md 3/C13"),
